@@ -32,6 +32,13 @@ structure KState where
   inBurst : Bool := false
   dead : Bool := false
   wasReady : Bool := false
+  /-- a Watch call that never returns is in flight at the settle point: the watch cannot reconnect -/
+  blocked : Bool := false
+  /-- keys whose cache entry a replayed stale DELETED frame may have removed; cleared by the next completed list -/
+  spoiled : List Key := []
+  spoiledAt : Nat := 0
+  /-- the server's lists carry an empty resource version (a watch from "" starts at the current version) -/
+  emptyRV : Bool := false
 
 def stateAt (h : List (Int × EvT × Obj)) (n : Nat) : Items Key Obj :=
   (h.take n).foldl (fun m e => serverApply m e.2.1 e.2.2) []
@@ -66,13 +73,18 @@ def ctrlLine (st : KState) (e : SExp) : KState × String :=
     | some f => ({ st with started := true, filter := f, period := (p.toNat?).getD 0, latency := (lat.toNat?).getD 0, faultAt := (fa.toNat?).getD 0,
                            faultKind := fk, retryDelay := (rd.toNat?).getD 1000, fuzzPermille := (fz.toNat?).getD 100 }, "ok")
     | none => (st, "bad cstart")
+  | .list [.atom "emptyrv"] => ({ st with emptyRV := true }, "ok")
   | .list (.atom "advance" :: _) => (st, "ok")
+  | .list [.atom "inject", .atom "replay-delete", o] =>
+    match decObj o with
+    | some o => ({ st with spoiled := o.key :: st.spoiled, spoiledAt := st.nLists }, "ok")
+    | none => (st, "bad inject")
   | .list (.atom "inject" :: _) => (st, "ok")
   | .list (.atom "watch-errors" :: _) => (st, "ok")
   | .list [.atom "watch-block"] => (st, "ok")
   | .list [.atom "burst-begin"] => ({ st with inBurst := true }, "ok")
   | .list [.atom "burst-end"] => ({ st with inBurst := false }, "ok")
-  | .list [.atom "settle"] => ({ st with settled := true }, "ok")
+  | .list [.atom "settle", b] => ({ st with settled := true, blocked := decBool b != some false }, "ok")
   | .list [.atom "closeroot"] => ({ st with closing := true }, "ok")
   | .list [.atom "cancel"] => ({ st with closing := true }, "ok")
   | .list [.atom "close-returned", b] =>
@@ -93,7 +105,11 @@ def ctrlLine (st : KState) (e : SExp) : KState × String :=
       let n := st.history.length
       -- the k-th list was made to fail?
       let failed := st.faultAt > 0 && nLists ≥ st.faultAt
-      let st1 := { st with lists := lists, nLists := nLists, lastCache := c }
+      -- a list completed since the last replayed DELETED: the spoiled keys are repaired (C03)
+      let doneLists := (lists.filter (·.finish > 0)).length
+      let spoiled := if doneLists > st.spoiledAt then [] else st.spoiled
+      let unspoil (l : List Obj) : List Obj := l.filter (fun o => !spoiled.contains o.key)
+      let st1 := { st with lists := lists, nLists := doneLists, lastCache := c, spoiled := spoiled }
       let fail (m : String) : KState × String := ({ st1 with dead := true }, m)
       -- ---- C14: list failures are fail-stop and reported; nothing else is fatal
       if failed && !st.closing then
@@ -135,16 +151,26 @@ def ctrlLine (st : KState) (e : SExp) : KState × String :=
         else
         -- C03/C04: the cache is the accepted server state at some point of the history, never going backwards;
         -- with a live watch (or right after a complete list of the current state) it is the current state
-        let listedNow := newLists.any (fun l => l.2.2.2 == toString (rvAt st.history n) && l.2.2.1 > 0) || (n == 0 && !newLists.isEmpty)
-        let candidates := (List.range (n + 1)).filter (fun j => j ≥ st.applied && sameObjSet cache (viewOf st.filter (stateAt st.history j)))
-        let mustBeCurrent := (live > 0 || listedNow) && !st.inBurst
+        let listedNow := newLists.any (fun l => l.2.2.2 == toString (rvAt st.history n)) || (n == 0 && !newLists.isEmpty)
+        let candidates := (List.range (n + 1)).filter (fun j => j ≥ st.applied &&
+          sameObjSet (unspoil cache) (unspoil (viewOf st.filter (stateAt st.history j))) &&
+          -- a spoiled key is either gone or as the server has it
+          cache.all (fun o => !spoiled.contains o.key || (viewOf st.filter (stateAt st.history j)).contains o))
+        -- (a server without list versions restarts every watch "from now": only a list makes the cache current)
+        let mustBeCurrent := ((live > 0 && !st.emptyRV) || listedNow) && !st.inBurst
+        -- with watches restarting "from now" changes are lost between sessions: between lists the cache is only
+        -- per key a past state; such scenarios are judged at the completed lists (C03) and at readiness (C08)
+        if st.emptyRV && !mustBeCurrent then ({ st1 with wasReady := true }, "ok") else
         match candidates.head? with
         | none =>
-          fail s!"reject C03/C04 the cache {showObjs cache} is not the accepted server state at any point from event {st.applied} on (now: {showObjs (viewOf st.filter (stateAt st.history n))})"
+          fail s!"reject {if st.wasReady then "C03/C04" else "C03/C04/C08"} the cache {showObjs cache} is not the accepted server state at any point from event {st.applied} on (now: {showObjs (viewOf st.filter (stateAt st.history n))})"
         | some j =>
           let jmax := (candidates.getLast?).getD j
-          if mustBeCurrent && jmax != n then
-            fail (s!"reject C03/C04 the watch is connected (or a list of the current state just completed) but the cache {showObjs cache} is behind the server {showObjs (viewOf st.filter (stateAt st.history n))}")
+          -- C04: the server has been quiet for three reconnect delays and no Watch call is stuck
+          if st.settled && !st.blocked && live == 0 then
+            fail "reject C04 the server has been quiet for three reconnect delays (no Watch call is stuck) but no watch is connected: the watch was never re-established"
+          else if mustBeCurrent && jmax != n then
+            fail (s!"reject {if st.wasReady then "C03/C04" else "C03/C04/C08"} the watch is connected (or a list of the current state just completed) but the cache {showObjs cache} is behind the server {showObjs (viewOf st.filter (stateAt st.history n))}")
           else
             -- C02/C03: the subscriber's events account for the difference
             let before := st.lastCache.getD []
@@ -158,7 +184,7 @@ def ctrlLine (st : KState) (e : SExp) : KState × String :=
               let wbad := calls.find? (fun cl => cl.1 == "watch" &&
                 (match cl.2.2.2.toInt? with
                  | some v => v > rvAt st.history (if mustBeCurrent then n else jmax) && v > (match lists.getLast? with | some l => l.rv.toInt?.getD 0 | none => 0)
-                 | none => true))
+                 | none => !(st.emptyRV && cl.2.2.2 == "")))
               match wbad with
               | some cl => fail s!"reject C04 Watch was called with resourceVersion {cl.2.2.2}, beyond what the controller has received"
               | none => ({ st1 with applied := if mustBeCurrent then n else j, wasReady := true }, "ok")
